@@ -10,8 +10,8 @@
 
   Int: every specification `%[hh|h|l|ll|j|z|t|q][d|i|o|u|x|X]` (54) is covered; what is read back is C's conversion of the value to
   the type the modifier names, i.e. the value itself on the range of that type (`C15_intspec_roundtrip`, `C15_intspec_in_width`).
-  Float: the value clause is a theorem (`C15_float_value`, `C15_float_within`): both libc conversions are exact executable
-  functions of the model and the statement is arithmetic about them.  A floating specification without `l` makes
+  Float: the value clause is a theorem (`C15_float_value`, `C15_float_within`; for `%le` / `%lE` numerically: `C15_float_e_within`):
+  both libc conversions are exact executable functions of the model and the statement is arithmetic about them.  A floating specification without `l` makes
   scan_from_with store through a `float`: known finding KF-C15-float-spec-narrow (`C15_float_narrow_refuted`); for values
   representable in a `float` the round trip is proved (`C15_float_narrow_partial`).
 -/
@@ -134,7 +134,7 @@ theorem C15_intspec_ranges (n : Int) :
     (intInWidth .h .i n = true ↔ -32768 ≤ n ∧ n < 32768) ∧ (intInWidth .h .u n = true ↔ 0 ≤ n ∧ n < 65536) ∧
     (intInWidth .none .d n = true ↔ -2147483648 ≤ n ∧ n < 2147483648) ∧ (intInWidth .none .o n = true ↔ 0 ≤ n ∧ n < 4294967296) ∧
     (intInWidth .l .X n = true ↔ inInt64 n = true) ∧ (intInWidth .q .u n = true ↔ inInt64 n = true) := by
-  simp only [intInWidth, IMod.width, IConv.signed, Bool.and_eq_true, decide_eq_true_eq]
+  simp only [intInWidth, IMod.width, IConv.signed]
   norm_num
 
 /-- **C15 for sequences (T1), String and File alike, every start position.**  Let `its` be any sequence of Strings, Ints
@@ -323,10 +323,24 @@ theorem C15_float_items (it : Item) (b : Nat) (hv : it.valid = true) (hw : it.in
       simp only [Item.inWidth, C15_float_arm false .F, Bool.not_false, Bool.not_true, Bool.false_or] at hw
       rw [C15_float_arm false .F, hF]; exact (C15_float_narrow_partial b hv hw).1
 
-/-- **Float under `%e` `%E` `%g` `%G`, value part — NOT proved.**  The consumed length and the position are proved for these
-    specifications (`C15_float_consumed`, `C15_sequence_roundtrip`); that the double read back prints as the same text under the same
-    specification is stated here and evaluated by the driver on every such item it sees (`M rt=`), and checked by the harness
-    oracle with libc, but the argument of `C15_float_value` has not been carried out for a scale that depends on the value. -/
+/-- **Float under `%le` / `%lE`, value part (T2, numeric form).**  For every finite double: what `%e` / `%E` wrote — seven significant
+    digits, correctly rounded (`printE`) — is read back by `%le` / `%lE` as a finite double of the same sign that differs from the
+    double written by at most one millionth of it, i.e. by at most one unit of the seventh significant digit: it is at least as
+    close to the seven-digit decimal as the double written (`reparseE_near`), which is within half a unit of that digit. -/
+theorem C15_float_e_within (upper : Bool) (bits : Nat) (h : fFinite bits = true) :
+    (fDecode (reparseSpec false (if upper then .E else .e) bits)).1 = (fDecode bits).1 ∧
+    fFinite (reparseSpec false (if upper then .E else .e) bits) = true ∧
+    |val (fDecode (reparseSpec false (if upper then .E else .e) bits)).2.1 (fDecode (reparseSpec false (if upper then .E else .e) bits)).2.2
+        - val (fDecode bits).2.1 (fDecode bits).2.2| ≤ val (fDecode bits).2.1 (fDecode bits).2.2 / 10 ^ 6 :=
+  reparseE_within upper bits h
+
+/-- **Float under `%e` `%E` `%g` `%G`: text stability — NOT proved.**  The consumed length and the position are proved for these
+    specifications (`C15_float_consumed`, `C15_sequence_roundtrip`), and for `%le` / `%lE` the numeric closeness
+    (`C15_float_e_within`).  That the double read back prints as the *same text* under the same specification (the form in which
+    `C15_float_value` states "within the printed precision" for `%f`) is stated here for all six conversions; it is evaluated by
+    the driver on every such item it sees (`M rt=`) and checked by the harness oracle with libc, but the stability argument of
+    `fScaled_stable` has not been carried out for a scale that depends on the value (decade boundaries, the subnormal range),
+    nor the parse of the three text styles of `%g`. -/
 def C15_float_sci_statement : Prop :=
   ∀ (cv : FConv) (bits : Nat), fFinite bits = true → printFloatSpec cv (reparseSpec false cv bits) = printFloatSpec cv bits
 
@@ -344,7 +358,7 @@ example :
     rw [printIntSpec_l_signed .d rfl 7 (by decide)]; simp [printInt, natDigits_lt10]
   have e3 : printInt 0 = [48] := by simp [printInt, natDigits_lt10]
   refine ⟨?_, by decide, ?_⟩
-  · simp only [inProperty, contractOK, Item.valid, Item.safe, Item.text, Item.inWidth, List.flatMap_cons, List.flatMap_nil, e1, e2, e3]
+  · simp only [inProperty, contractOK, Item.valid, Item.safe, Item.text, List.flatMap_cons, List.flatMap_nil, e1, e2, e3]
     decide
   · simp [Item.text, e1, e2, e3, showString, showByte, srcCfg, CelloGen.Text.showEsc, CelloGen.Text.showOpen,
       CelloGen.Text.showClose, List.lookup]
@@ -369,7 +383,7 @@ example :
   have e5 : printF 0xC059000000000000 = [45, 49, 48, 48, 46, 48, 48, 48, 48, 48, 48] := by
     simp [printF, fDecode, fScaled, roundHalfEven, natDigits_lt10, natDigits_ge10]
   refine ⟨?_, by decide, ?_, by decide⟩
-  · simp only [inProperty, contractOK, Item.valid, Item.safe, Item.text, printFloatSpec, List.flatMap_cons, List.flatMap_nil, e1, e2, e3,
+  · simp only [inProperty, contractOK, Item.valid, Item.safe, Item.text, printFloatSpec, List.flatMap_cons, List.flatMap_nil, e2, e3,
       e4, e5, List.all_cons, List.all_nil, Item.inWidth, C15_float_arm]
     decide
   · simp [Item.text, printFloatSpec, e1, e2, e3, e4, e5]
